@@ -3,6 +3,7 @@ import Driver.C20
 import Driver.C09
 import Driver.Frame
 import Driver.Seg
+import Driver.Conv
 /-! Line-protocol driver: one operation per input line, one canonical answer per output line. -/
 
 structure St where
@@ -18,6 +19,7 @@ def step (st : St) (line : String) : St × String :=
   | "crc" :: args => let (z, o) := Driver.Seg.handle st.zs ("crc" :: args); ({ st with zs := z }, o)
   | "zs" :: args => let (z, o) := Driver.Seg.handle st.zs ("zs" :: args); ({ st with zs := z }, o)
   | "seg" :: args => let (z, o) := Driver.Seg.handle st.zs ("seg" :: args); ({ st with zs := z }, o)
+  | "conv" :: args => (st, Driver.Conv.handle args)
   | "prim" :: args => let (z, o) := Driver.Frame.handle st.z ("prim" :: args); ({ st with z := z }, o)
   | "z" :: args => let (z, o) := Driver.Frame.handle st.z ("z" :: args); ({ st with z := z }, o)
   | "inf" :: args => let (s, o) := Driver.C09.handle st.inf args; ({ st with inf := s }, o)
